@@ -131,6 +131,24 @@ func.func @f(%A : {ta}, %B : {tb}, %C : {tc}, %D : {td}) {{
 """
 
 
+def xdma_add_src(n):
+    t = f"memref<{n}xi32>"
+    return f"""
+func.func @f(%A : {t}, %B : {t}, %C : {t}) {{
+  "dart.operation"(%A, %B, %C) <{{patterns = [affine_map<(d0) -> (d0)>, affine_map<(d0) -> (d0)>, affine_map<(d0) -> (d0)>], accelerator = "snax_xdma", operandSegmentSizes = array<i32: 2, 1>}}> ({{
+  ^bb0(%s0 : !dart.stream<i32>, %s1 : !dart.stream<i32>, %s2 : !dart.stream<i32>):
+    %g = "dart.generic"(%s0, %s1) <{{library_call = "snax_xdma"}}> ({{
+    ^bb1(%a : i32, %b : i32, %acc : i32):
+      %m = kernel.add %a, %b : i32, i32 -> i32
+      dart.yield %m : i32
+    }}) : (!dart.stream<i32>, !dart.stream<i32>) -> !dart.stream<i32>
+    dart.yield %g : !dart.stream<i32>
+  }}) : ({t}, {t}, {t}) -> ()
+  func.return
+}}
+"""
+
+
 def direct_schedule_src(TA, TB, TD, mtiles):
     """GEMM given directly as a dart.schedule; the M loop is tiled `mtiles` times (2 or 3 levels incl. the array)."""
     if mtiles == 3:
@@ -173,6 +191,13 @@ def observe(src, acc_name, pre_passes, set_layout):
     from snaxc.dialects import dart, snax_stream
 
     main = xshim.make_main()
+    if acc_name == "snax_xdma":
+        try:
+            from snaxc.accelerators.snax_xdma import SNAXXDMAAccelerator
+
+            main.ctx.register_accelerator("snax_xdma", SNAXXDMAAccelerator)  # otherwise only registered through config files
+        except ValueError:
+            pass
     m = Parser(main.ctx, src).parse_module()
     spec = [f"insert-accfg-op{{accelerator={acc_name}}}"] + list(pre_passes)
     if set_layout:
@@ -264,15 +289,21 @@ def check(src, acc_name, pre_passes, set_layout, what):
     for i in reversed(range(nT)):
         xT.insert(0, rem % BT[i])
         rem = rem / BT[i]
+    # every scheduled operand is streamed through its own pointer (a stream that stands for another buffer by assuming
+    # where that buffer lies does not count)
+    disabled = lambda st: bool(st["ub"]) and not any(st["ub"])  # all-zero bounds; an EMPTY bound list is a single step
+    served = {id(st["source"]) for st in streams if st["source"] is not None and not disabled(st)}
+    for o, srcv in enumerate(ap["ptr_sources"]):
+        E.oblige("stream:every_scheduled_operand_is_read_through_its_own_pointer", z3.BoolVal(id(srcv) in served), dict(operand=o, what=what))
     for k, st in enumerate(streams):
-        if st["source"] is None or not any(st["ub"]):
+        if st["source"] is None or disabled(st):
             continue  # zero-pointer (generated) or disabled stream: stands for no scheduled operand
         cands = [o for o, s in enumerate(ap["ptr_sources"]) if s is st["source"]]
         if not cands:
             continue
         if len(cands) > 1 and k < len(streams) - 1:
             # the same buffer passed several times: the j-th stream reading it stands for its j-th occurrence
-            earlier = sum(1 for k2 in range(k) if streams[k2]["source"] is st["source"] and any(streams[k2]["ub"]))
+            earlier = sum(1 for k2 in range(k) if streams[k2]["source"] is st["source"] and not disabled(streams[k2]))
             o = cands[min(earlier, len(cands) - 1)]
         else:
             o = cands[-1] if len(cands) > 1 else cands[0]
@@ -338,6 +369,8 @@ def case_pipeline(case):
     elif kind == "gemmx":
         _, (M, N, K), i8out, lays, setl = case
         src, acc, pre = gemmx_src(M, N, K, i8out, lays), "snax_gemmx", ["dart-scheduler"]
+    elif kind == "xdma_add":
+        src, acc, pre, setl = xdma_add_src(case[1]), "snax_xdma", ["dart-scheduler"], None
     elif kind in ("gemm4", "gemm4b"):
         _, ta, tb, tc, td = case
         src, acc, pre, setl = gemm4_src(ta, tb, tc, td), "snax_gemmx", ["dart-scheduler"], None
@@ -362,6 +395,8 @@ def case_pipeline(case):
         s = f["name"]
         if s.startswith("layout_resolution") and lay.get("offset"):
             s += f"|layout_with_nonzero_offset:{lay.get('kind')}"
+        if (s.startswith("stream:") or s.startswith("programmed:")) and kind == "xdma_add":
+            s += "|xdma_add_extension"
         if s.startswith("stream:") and kind == "gemm4b" and info.get("operand") == 2:
             s += "|bias_vector_broadcast_over_rows"
         if s.startswith("stream:") and info.get("inner_contiguous") is False:
@@ -417,6 +452,9 @@ def run(chk):
             cases.append(("gemm4", rt(M, K, "i8"), ct(K, N, "i8"), tc, rt(M, N, "i32")))
     for M, N, K in ((16, 16, 16), (8, 16, 8)) + (() if quick else ((16, 8, 8), (24, 16, 8))):
         cases.append(("gemm4b", rt(M, K, "i8"), ct(K, N, "i8"), f"memref<{N}xi32>", rt(M, N, "i32")))
+    # element-wise add on the xDMA (add extension of the reader)
+    for n in (128, 64) + (() if quick else (16, 256)):
+        cases.append(("xdma_add", n))
     # the same buffer as both inputs with different access maps (Gram matrix X * X^T)
     for M, K in ((16, 16), (8, 24), (24, 8)) + (() if quick else ((32, 16), (16, 64))):
         for i8out in (False, True):
@@ -441,4 +479,4 @@ def run(chk):
                   "memref<32x16xi32, #tsl.tsl<[4, 8] -> (64, 8), [2, 8] -> (256, 1)>>", 2))
     chk.add_results("pipeline_observations", pmap(case_pipeline, cases))
     chk.bounds = dict(cases=len(cases), alu_shapes="1-D and 2-D", gemmx_shapes=[str(s) for s in shapes], layouts="identity / strided (incl. offsets) / TSL chosen by set-memory-layout / explicit 2- and 3-level TSL")
-    chk.outside = ["snax_xdma extension stride rewrites", "rescale-only kernels on gemmx", "dynamic shapes", "element widths other than i8/i32/i64"]
+    chk.outside = ["snax_xdma extensions other than add", "rescale-only kernels on gemmx", "dynamic shapes", "element widths other than i8/i32/i64"]
